@@ -56,7 +56,7 @@ def r1(run, ctx):
                   'three owners', caller, s.node.ast,
                   '%s binds a managed socket: sockets are bound once at start-up (or when the '
                   'configuration adds one)' % caller.qualname)
-    run.count('R1', n, 3, 'callers of CircusSocket.bind_and_listen')
+    run.count('R1', n, 2, 'callers of CircusSocket.bind_and_listen')
     # the three owners: conditions
     f = ctx.fn(SS + 'bind_and_listen_all')
     cfg = ctx.cfg(f)
@@ -101,7 +101,7 @@ def r1(run, ctx):
                     run.check('R1', g.key == bl.key, 'raw bind()/listen() only inside '
                               'CircusSocket.bind_and_listen', g, node.ast,
                               '%s binds/listens on a socket outside bind_and_listen' % g.qualname)
-    run.count('R1', n, 3, 'raw bind/listen calls')
+    run.count('R1', n, 2, 'raw bind/listen calls')
     # close
     cl = ctx.fn(S + 'close')
     ca = ctx.fn(SS + 'close_all')
@@ -125,7 +125,7 @@ def r1(run, ctx):
         run.check('R1', caller.key in allowed_close, 'managed sockets are closed only at '
                   'shutdown or when the configuration removes them', caller, s.node.ast,
                   '%s closes a managed socket while the daemon keeps running' % caller.qualname)
-    run.count('R1', n, 3, 'close sites of managed sockets')
+    run.count('R1', n, 2, 'close sites of managed sockets')
     # nothing of that is reachable from the worker lifecycle
     roots = [ctx.fn(k) for k in LIFECYCLE]
     # Process._get_sockets_fds is not expanded: its one bind (a fresh per-worker copy of
@@ -231,7 +231,7 @@ def r3(run, ctx):
     for m, n_ in writers:
         run.check('R3', m.name in ('initialize', '__init__'), 'Watcher.sockets is assigned only '
                   'at initialisation', m, n_.ast)
-    run.count('R3', len(writers), 2, 'writers of Watcher.sockets')
+    run.count('R3', len(writers), 1, 'writers of Watcher.sockets')
     n_init = 0
     for caller, s in ctx.callers_of([W + 'initialize'], kinds=('call',)):
         if not caller.key.startswith('circus.arbiter:Arbiter.'):
@@ -241,7 +241,7 @@ def r3(run, ctx):
         run.check('R3', a is not None and norm_text(a) == 'self.sockets',
                   "every watcher receives the arbiter's one socket table", caller, s.node.ast,
                   'a watcher is initialised with a socket table other than the arbiter\'s')
-    run.count('R3', n_init, 4, 'Watcher.initialize call sites in the arbiter')
+    run.count('R3', n_init, 2, 'Watcher.initialize call sites in the arbiter')
 
 
 def r4(run, ctx):
